@@ -213,13 +213,63 @@ def check_case(ctx, case):
         ctx.count('bodies_multi_part')
 
 
+# ------------------------------------------------------------------ coverage-guided tier (atheris)
+FUZZ_BOUNDS = ['b', '--b', 'b-', '-', 'bndbnd', 'a-b', 'XX']
+
+
+def fuzz_decode(data):
+    """bytes -> well-formed body by construction: byte 0 boundary, byte 1 preamble/epilogue, byte 2 number of cuts, then parts separated by
+    0xFF 0x00 (first byte of a part: bit 0 = file part), the last 2*ncuts bytes are the cut positions."""
+    if len(data) < 8:
+        return None
+    boundary = FUZZ_BOUNDS[data[0] % len(FUZZ_BOUNDS)]
+    ncuts = 1 + data[2] % 4
+    tail = data[-2 * ncuts:]
+    blob = bytes(data[3:-2 * ncuts])
+    parts = []
+    for i, chunk in enumerate(blob.split(b'\xff\x00')[:4]):
+        if not chunk:
+            continue
+        v, _ = sanitize_part_data(boundary, chunk[1:])
+        p = {'name': 'f%d' % i, 'value': v}
+        if chunk[0] & 1:
+            p['filename'] = 'x.bin'
+        parts.append(p)
+    epi = [b'', b'\r\n', b'\r\nepilogue', b'text', b'--', b'\r', b'-'][(data[1] >> 1) % 7]
+    return {'boundary': boundary, 'parts': parts, 'preamble': b'\r\n' if data[1] & 1 else b'', 'epilogue': epi,
+            'fuzz_cuts': [tail[2 * i] * 256 + tail[2 * i + 1] for i in range(ncuts)], 'prefix': data[2] >> 4}
+
+
+def fuzz_one(ctx, case):
+    boundary = case['boundary']
+    body, truth = encode_multipart(boundary, case['parts'], case['preamble'], case['epilogue'])
+    # every prefix of a well-formed body is in the domain too
+    if case['prefix'] % 3 == 0 and len(body) > 2:
+        body = body[:1 + (case['fuzz_cuts'][0] * 7 + case['prefix']) % len(body)]
+    n = len(body)
+    if n < 2:
+        return
+    cuts = sorted({1 + c % (n - 1) for c in case['fuzz_cuts']})
+    for off, snap in parse_division(boundary, body, cuts):
+        want = one_piece(boundary, body[:off])
+        if snap != want:
+            raise CheckFailure(f'split-dependent result (fuzz): boundary={boundary!r} body={body!r} cuts={cuts}: after the chunk ending at {off} got {snap}, '
+                               f'one piece gives {want}')
+
+
 def run(ctx):
     for name, case in load_corpus(ID):
         ctx.guarded(check_case, case)
         ctx.count('corpus')
     n = 220 if ctx.tier == 'quick' else 400
     ctx.hyp(body_case(), check_case, n)
+    if ctx.tier == 'thorough' and ctx.shard < 4:
+        from vlib import fuzz
+        seed_body = b'\x00\x02\x01' + b'\x00text value\r\n--\xff\x00\x01file\r\ncontent\r\n-' + b'\x00\x30\x00\x61'
+        fuzz.campaign(ctx, __import__('checks.c06_multipart_split', fromlist=['x']), runs=300000, max_len=400, seeds=[] if ctx.shard % 2 else [seed_body])
 
 
 def replay(ctx, case):
+    if 'fuzz_cuts' in case:
+        return fuzz_one(ctx, case)
     check_case(ctx, case)
